@@ -80,7 +80,7 @@ def molecule_pair(draw, max_atoms=40, kinds_big=("tree", "chain", "star", "cycli
             mpos[n2] = base + off
             mpos[n3] = base + off + d
             degenerate = True
-    far = draw(st.integers(0, 5)) == 0
+    far = draw(st.integers(0, 5)) == 0 or (small >= 20 and draw(st.booleans()))      # long molecules: half of them far away
     if far:
         # anywhere in the range a coordinate file can hold (-999.999 .. 9999.999 nm): box-scale offsets of both molecules
         spos = spos + np.round(rng.uniform(-900, 9900, 3), 3)
